@@ -79,11 +79,11 @@ Proof. intros. unfold outcome, count_model, count_spec. cbn. now rewrite count_g
 
 (* compress *)
 Lemma compress_go_yields kd ks d : forall s y,
-  yields (compress_go kd ks d s y) = map fst (filter (fun p => zb (snd p)) (combine d s)).
+  yields (compress_go kd ks d s y) = map fst (filter (fun p => truthy (snd p)) (combine d s)).
 Proof.
   induction d as [|x d IH]; intros s y; cbn; ysimp; [reflexivity|].
   destruct s as [|b s]; cbn; ysimp; [reflexivity|].
-  destruct (zb b); cbn; now rewrite IH.
+  destruct (truthy b); cbn; now rewrite IH.
 Qed.
 
 Theorem compress_agrees : forall d s, outcome (compress_model d s) = compress_spec (snd d) (snd s).
@@ -144,21 +144,26 @@ Proof.
   now rewrite pairwise_loop_yields.
 Qed.
 
-(* accumulate *)
-Lemma accumulate_loop_yields f k l : forall total,
-  total :: yields (accumulate_loop f k total l) = scanl f total l.
+(* accumulate: for an arbitrary callback that may raise *)
+Lemma accumulate_loop_outcome f k l : forall total,
+  (total :: fst (outcome (accumulate_loop f k total l)), snd (outcome (accumulate_loop f k total l))) = scanl_p f total l.
 Proof.
-  induction l as [|x r IH]; intros total; cbn [accumulate_loop scanl]; ysimp; [reflexivity|].
-  now rewrite IH.
+  induction l as [|x r IH]; intros total; cbn [accumulate_loop scanl_p].
+  - unfold outcome. cbn [fst snd]. now rewrite yields_pre.
+  - destruct (f total x) as [t|].
+    + rewrite outcome_tapp. cbn [fst snd]. rewrite yields_app, yields_pre. cbn [yields app].
+      specialize (IH t). destruct (scanl_p f t r) as [ys e]. injection IH as <- <-. reflexivity.
+    + unfold outcome. cbn [fst snd]. now rewrite yields_pre.
 Qed.
 
 Theorem accumulate_agrees : forall f initial s,
   outcome (accumulate_model f initial s) = accumulate_spec f initial (snd s).
 Proof.
-  intros f initial [k l]. unfold outcome, accumulate_model, accumulate_spec. cbn [fst snd].
+  intros f initial [k l]. unfold accumulate_model, accumulate_spec. cbn [snd].
   destruct initial as [i|].
-  - cbn [fst snd yields]. now rewrite accumulate_loop_yields.
-  - destruct l as [|x r]; cbn [fst snd]; ysimp; [reflexivity|]. now rewrite accumulate_loop_yields.
+  - rewrite outcome_tapp. cbn [yields app]. exact (accumulate_loop_outcome f k l i).
+  - destruct l as [|x r]; [unfold outcome; cbn [fst snd]; ysimp; reflexivity|].
+    rewrite outcome_tapp, yields_app, yields_pre. cbn [yields app]. exact (accumulate_loop_outcome f k r x).
 Qed.
 
 (* the four delegating functions: pool collection, then exactly what the stdlib function yields on the pool *)
@@ -188,24 +193,29 @@ Proof.
 Qed.
 
 (* ------------------------------------------------------------------------------------------------ *)
-(* reduce *)
+(* reduce: for an arbitrary callback that may raise *)
 Lemma reduce_loop_spec f l : forall v,
-  yields (fst (reduce_loop f v l)) = [] /\ snd (reduce_loop f v l) = fold_left f l v /\
-  hd_error (fst (reduce_loop f v l)) = Some Nx.
+  yields (fst (reduce_loop f v l)) = [] /\ snd (reduce_loop f v l) = fold_p f l v.
 Proof.
-  induction l as [|x r IH]; intros v; cbn [reduce_loop]; [auto|].
-  destruct (IH (f v x)) as (Y & S & _). destruct (reduce_loop f (f v x) r) as [ev v']. cbn in *. auto.
+  induction l as [|x r IH]; intros v; cbn [reduce_loop fold_p]; [auto|].
+  destruct (f v x) as [v'|]; [|auto].
+  destruct (IH v') as (Y & S). destruct (reduce_loop f v' r) as [ev o]. cbn in *. auto.
+Qed.
+
+Lemma reduce_finish_outcome pref f l v : yields pref = [] ->
+  outcome (reduce_finish pref (reduce_loop f v l)) = reduce_result (fold_p f l v).
+Proof.
+  intros Hp. destruct (reduce_loop_spec f l v) as (Y & S). destruct (reduce_loop f v l) as [ev o]. cbn [fst snd] in *.
+  rewrite <- S. unfold reduce_finish, outcome, reduce_result. destruct o as [w|]; cbn [fst snd].
+  - rewrite !yields_app, Hp, Y. reflexivity.
+  - rewrite yields_app, Hp, Y. reflexivity.
 Qed.
 
 Theorem reduce_agrees : forall f initial s, outcome (reduce_model f initial s false) = reduce_spec f initial (snd s).
 Proof.
-  intros f initial [k l]. unfold outcome, reduce_model, reduce_spec. cbn [snd].
-  destruct initial as [i|].
-  - destruct (reduce_loop_spec f l i) as (Y & S & _). destruct (reduce_loop f i l) as [ev v]. cbn [fst snd] in *.
-    cbn [yields]. rewrite yields_app, Y. cbn. now rewrite S.
-  - destruct l as [|x r]; [reflexivity|].
-    destruct (reduce_loop_spec f r x) as (Y & S & _). destruct (reduce_loop f x r) as [ev v]. cbn [fst snd] in *.
-    cbn [yields]. rewrite yields_app, Y. cbn. now rewrite S.
+  intros f initial [k l]. unfold reduce_model, reduce_spec. cbn [snd].
+  destruct initial as [i|]; [now apply reduce_finish_outcome|].
+  destruct l as [|x r]; [reflexivity|]. now apply reduce_finish_outcome.
 Qed.
 
 (* groupby: for an ARBITRARY key comparison `same` (nothing assumed: not reflexive, symmetric or transitive) *)
@@ -826,15 +836,21 @@ Lemma ckd_collect_all_emit {B} ss (vs : list B) : ckd (collect_all ss ++ emit_sy
 Proof. apply ckd_app_r; [apply yields_collect_all|apply ckd_emit_sync]. Qed.
 
 (* accumulate *)
+Lemma accumulate_loop_starts f k total l t :
+  is_sync k = true -> ckd (fst (tapp (pre k ++ t) (accumulate_loop f k total l))).
+Proof. intros H. unfold tapp. cbn [fst]. rewrite <- app_assoc. now apply sync_pre. Qed.
+
 Theorem accumulate_checkpoints : forall f initial s,
+  snd (accumulate_model f initial s) = None ->
   is_sync (fst s) = true \/ yields (fst (accumulate_model f initial s)) = [] ->
   ckd (fst (accumulate_model f initial s)).
 Proof.
-  intros f initial [k l] H. unfold accumulate_model in *. cbn [fst] in *.
-  destruct initial as [i|]; [split; reflexivity|].
+  intros f initial [k l] He H. unfold accumulate_model in *. cbn [fst] in *.
+  destruct initial as [i|]; [unfold tapp; cbn [fst]; split; reflexivity|].
   destruct l as [|x r]; cbn [fst] in *.
   - apply good_use; [apply good_ck|]. ysimp. reflexivity.
-  - destruct H as [H|H]; [now apply sync_pre|]. revert H. ysimp. discriminate.
+  - destruct H as [H|H]; [now apply accumulate_loop_starts|].
+    revert H. unfold tapp. cbn [fst]. ysimp. discriminate.
 Qed.
 
 (* batched *)
@@ -922,7 +938,7 @@ Lemma compress_go_good kd ks : forall d s, good (compress_go kd ks d s false).
 Proof.
   induction d as [|x d IH]; intros s; cbn [compress_go]; [apply good_tail|].
   apply good_app_r. destruct s as [|b s]; [apply good_tail|].
-  destruct (zb b); [apply good_yield|apply good_app_r, IH].
+  destruct (truthy b); [apply good_yield|apply good_app_r, IH].
 Qed.
 
 Theorem compress_checkpoints : forall d s,
@@ -1097,6 +1113,19 @@ Qed.
 Lemma passes_ckif {A} (t : list (event A)) : passes_ck (CkIf :: t) = existsb is_yield t.
 Proof. unfold passes_ck. cbn. now rewrite andb_true_r. Qed.
 
+Lemma reduce_finish_ck pref f l v :
+  hd_error pref = Some CkIf -> yields pref = [] ->
+  hd_error (fst (reduce_finish pref (reduce_loop f v l))) = Some CkIf /\
+  (snd (reduce_finish pref (reduce_loop f v l)) = None ->
+   passes_ck (fst (reduce_finish pref (reduce_loop f v l))) = true /\
+   check_before_first_yield_value (fst (reduce_finish pref (reduce_loop f v l))) = true).
+Proof.
+  intros Hh Hy. destruct pref as [|e pr]; [discriminate|]. cbn in Hh. injection Hh as ->.
+  destruct (reduce_loop f v l) as [ev [w|]]; cbn [reduce_finish fst snd app hd_error]; (split; [reflexivity|]);
+    [intros _|discriminate].
+  split; [|reflexivity]. rewrite passes_ckif, !existsb_app. cbn. now rewrite !orb_true_r.
+Qed.
+
 Theorem reduce_checkpoints : forall f initial s,
   hd_error (fst (reduce_model f initial s false)) = Some CkIf /\
   (snd (reduce_model f initial s false) = None ->
@@ -1104,12 +1133,8 @@ Theorem reduce_checkpoints : forall f initial s,
    check_before_first_yield_value (fst (reduce_model f initial s false)) = true).
 Proof.
   intros f initial [k l]. unfold reduce_model. cbn [snd].
-  destruct initial as [i|].
-  - destruct (reduce_loop f i l) as [ev v]. cbn [fst snd]. split; [reflexivity|]. intros _.
-    split; [|reflexivity]. rewrite passes_ckif, existsb_app. cbn. apply orb_true_r.
-  - destruct l as [|x r]; [cbn; split; [reflexivity|discriminate]|].
-    destruct (reduce_loop f x r) as [ev v]. cbn [fst snd]. split; [reflexivity|]. intros _.
-    split; [|reflexivity]. rewrite passes_ckif. cbn [existsb is_yield orb]. rewrite existsb_app. cbn. apply orb_true_r.
+  destruct initial as [i|]; [now apply reduce_finish_ck|].
+  destruct l as [|x r]; [cbn; split; [reflexivity|discriminate]|]. now apply reduce_finish_ck.
 Qed.
 
 Theorem reduce_cancelled : forall f initial s,
@@ -1182,9 +1207,14 @@ Qed.
 Local Open Scope Z_scope.
 
 Example accumulate_trace :
-  accumulate_model Z.add None (KSync, [1; 2; 3]) =
-  ([CkIf; Sh; Yield 1; CkIf; Sh; Yield 3; CkIf; Sh; Yield 6; CkIf; Sh], None).
-Proof. reflexivity. Qed.
+  accumulate_model (fn2p 0) None (KSync, [1; 2; 3]) =
+  ([CkIf; Sh; Yield 1; CkIf; Sh; Yield 3; CkIf; Sh; Yield 6; CkIf; Sh], None) /\
+  (* None is an element like any other: accumulate([None]) yields it *)
+  outcome (accumulate_model (fn2p 7) None (KAsync, [none_code])) = ([none_code], None) /\
+  outcome (accumulate_model (fn2p 7) None (KAsync, [none_code; 1; none_code; 2])) = ([none_code; 1; 1; 2], None) /\
+  (* with `+`: the first element is yielded, then None + 1 raises TypeError *)
+  outcome (accumulate_model (fn2p 0) None (KSync, [none_code; 1])) = ([none_code], Some TypeError).
+Proof. vm_compute. repeat split. Qed.
 
 Example batched_ex_sync : snd (batched_model 2 false (KSync, [0; 1; 2])) = None /\
   outcome (batched_model 2 false (KSync, [0; 1; 2])) = ([[0; 1]; [2]], None).
@@ -1241,12 +1271,14 @@ Example zip_longest_ex : outcome (zip_longest_model 9 [(KSync, [1; 2; 3]); (KAsy
   ([[1; 4]; [2; 9]; [3; 9]], None) /\
   fst (zip_longest_model 9 [(KAsync, []); (KAsync, [])]) = [Ck] /\ fst (zip_longest_model 9 []) = [Ck].
 Proof. vm_compute. auto. Qed.
-Example reduce_ex : reduce_model Z.add None (KSync, [1; 2; 3]) false =
+Example reduce_ex : reduce_model (fn2p 0) None (KSync, [1; 2; 3]) false =
     ([CkIf; Nx; Nx; Call; Nx; Call; Nx; Sh; Yield 6], None) /\
-  reduce_model Z.add (Some 5) (KSync, []) false = ([CkIf; Nx; Sh; Yield 5], None) /\
-  reduce_model Z.add None (KAsync, [4]) false = ([CkIf; Nx; Nx; Sh; Yield 4], None) /\
-  reduce_model Z.add None (KSync, []) false = ([CkIf; Nx], Some TypeError) /\
-  reduce_model Z.add None (KSync, [1; 2]) true = ([CkIf], Some Cancelled).
+  reduce_model (fn2p 0) (Some 5) (KSync, []) false = ([CkIf; Nx; Sh; Yield 5], None) /\
+  outcome (reduce_model (fn2p 7) (Some none_code) (KSync, [none_code; 3]) false) = ([3], None) /\
+  outcome (reduce_model (fn2p 0) None (KSync, [1; none_code]) false) = ([], Some TypeError) /\
+  reduce_model (fn2p 0) None (KAsync, [4]) false = ([CkIf; Nx; Nx; Sh; Yield 4], None) /\
+  reduce_model (fn2p 0) None (KSync, []) false = ([CkIf; Nx], Some TypeError) /\
+  reduce_model (fn2p 0) None (KSync, [1; 2]) true = ([CkIf], Some Cancelled).
 Proof. vm_compute. repeat split. Qed.
 Example oracle_ex :
   combs [1; 2; 3] 2 = [[1; 2]; [1; 3]; [2; 3]] /\
